@@ -106,6 +106,23 @@ func oneByteFields(n int) []ref.Field {
 
 type Stats struct{ InvalidThenValid bool }
 
+// lost: a udp run ended without a verdict because a datagram did not arrive; the session is run
+// again, and three losses in a row are a message reported sent and never written.
+var lost string
+
+func runRetry(c Case, st *Stats) *ev.Failure {
+	for attempt := 1; ; attempt++ {
+		lost = ""
+		f := runCase(c, st)
+		if f != nil || lost == "" {
+			return f
+		}
+		if attempt == 3 {
+			return ev.Failf("over udp, three times in a row: %s", lost)
+		}
+	}
+}
+
 func runCase(c Case, st *Stats) *ev.Failure {
 	if st == nil {
 		st = &Stats{}
@@ -403,7 +420,9 @@ func runCase(c Case, st *Stats) *ev.Failure {
 		total += len(m)
 	}
 	if !peer.WaitMessages(len(expect), total, 20*time.Second) && c.Proto == "udp" {
-		return nil // datagram loss on loopback: inconclusive
+		msgs, _ := peer.Messages()
+		lost = fmt.Sprintf("%d valid sends reported success, %d datagrams arrived", len(expect), len(msgs))
+		return nil // datagram loss on loopback: no verdict for this run (see runRetry)
 	}
 	if c.Proto == "tcp" {
 		time.Sleep(0) // everything the exporter wrote is in the socket; WaitMessages saw >= total bytes
@@ -764,7 +783,7 @@ func genCase(t *rapid.T) Case {
 
 func runRecorded(phase string, c Case) *ev.Failure {
 	st := &Stats{}
-	f := runCase(c, st)
+	f := runRetry(c, st)
 	cl := []string{"proto_" + c.Proto}
 	seen := map[string]bool{}
 	for _, s := range c.Steps {
